@@ -114,6 +114,12 @@ func c09Remote(r *core.Run) {
 	}
 	samePath := t.Chance(1, 3, "output-in-place")
 	netBuf := core.Pick(t, "socket-buffer", 4<<10, 64<<10, 256<<10, 1<<20)
+	// a medium error on the client's input: the n-th read of the file fails
+	readFaultAt := 0
+	if t.Chance(1, 8, "input-read-fault") {
+		readFaultAt = 1 + t.Choose(24, "input-read-fault-at")
+	}
+	readFaultFired := false
 	var attempts []c09Attempt
 	var dialFaults int
 	exitCode := -1
@@ -255,6 +261,19 @@ func c09Remote(r *core.Run) {
 		})
 		defer simhook.SetNetDial(nil)
 
+		if readFaultAt > 0 {
+			nread := 0
+			w.FS.Fault = func(op *simhook.FSOp, seq int) (syscall.Errno, int) {
+				if (op.Kind == "read" || op.Kind == "readat") && strings.Contains(op.Path, "client-in-") {
+					nread++
+					if nread == readFaultAt {
+						readFaultFired = true
+						return syscall.EIO, 0
+					}
+				}
+				return 0, 0
+			}
+		}
 		// --- the client: relic's own "remote sign" command ---
 		in := w.Path("client-in-" + c.File)
 		out := w.Path("client-out-" + c.File)
@@ -363,6 +382,9 @@ func c09Remote(r *core.Run) {
 		}
 		return
 	}
+	if exitCode == 0 && readFaultFired {
+		r.Fault("input-read-EIO")
+	}
 	if exitCode == 0 {
 		r.Probe("remote-sign-succeeded")
 		if signAttempts > 1 || dialFaults > 0 {
@@ -392,6 +414,11 @@ func c09Remote(r *core.Run) {
 		if md := messageDigest(sig); md != nil && standaloneMD != nil && !bytes.Equal(md, standaloneMD) {
 			r.Failf("C09.digest-differs-from-standalone", c.Mod+"/remote", "embedded content digest %x differs from the standalone result's %x: %s", md, standaloneMD, desc)
 		}
+	} else if readFaultFired {
+		// the input could not be read: failing is right, whatever the servers
+		// made of the part they received
+		r.Fault("input-read-EIO")
+		r.Probe("remote-sign-failed")
 	} else {
 		r.Probe("remote-sign-failed")
 		if okSeen {
